@@ -11,7 +11,7 @@ D = decimal.Decimal
 CASES = {'quick': 8000, 'thorough': 120000}
 SMALL_BLOCKS = 4      # runner: every 4th case keeps its stores in 2..10-token blocks
 GATES = {
-    'quick': {'site:token-twice-in-batch': 50, 'site:consumed-node': 30, 'cases_in_small_blocks': 50, 'evaluations': 4500, 'refused_calls_judged': 4500, 'site:attached-node-in-batch': 300, 'site:attached-node-single': 500,
+    'quick': {'site:token-twice-in-batch': 50, 'site:consumed-node': 30, 'site:meta-update-attached': 30, 'cases_in_small_blocks': 50, 'evaluations': 4500, 'refused_calls_judged': 4500, 'site:attached-node-in-batch': 300, 'site:attached-node-single': 500,
               'site:index-or-key': 700, 'site:size-mismatch': 200, 'site:raw-text': 200, 'site:cost-combination': 60, 'site:cost-attached': 100,
               'site:arithmetic-attached': 200, 'site:claim-refused': 300, 'site:payee-attached': 50, 'site:store-foreign-token': 100,
               'site:whole-store-child': 50, 'batch_positions_seen': 3},
@@ -115,7 +115,7 @@ GARBAGE = ['garbage', '', '"unterminated', '2000-13-45', 'TRUE1', '12x', '#', 'a
 def special_step(col, r, f, text, log):
     """One deliberately invalid call outside the catalog. Returns False to end the history."""
     kind = r.choice(['raw-text', 'raw-text', 'cost-combination', 'cost-attached', 'arithmetic-attached', 'claim-refused', 'claim-refused',
-                     'payee-attached', 'store-foreign-token', 'whole-store-child', 'token-twice-in-batch', 'consumed-node'])
+                     'payee-attached', 'store-foreign-token', 'whole-store-child', 'token-twice-in-batch', 'consumed-node', 'meta-update-attached'])
     donors = []
     call = None
     nodes = list(walker.walk(f))
@@ -232,6 +232,29 @@ def special_step(col, r, f, text, log):
             call = lambda: st.insert_before(toks[a], batch)
         else:
             call = lambda: st.replace(toks[a], next(t for t in batch if t.store_handle is not None))
+    elif kind == 'meta-update-attached':
+        # a batch for meta.update() / raw_meta.update() whose last entry is a node that lives elsewhere: nothing may be written
+        owners = [(p, m) for p, m in nodes if isinstance(m, mbase.RawTreeModel) and ops.desc_of(type(m), 'meta') is not None]
+        src = _corpus.attached_node(r, models.Posting, 'raw_account') or _corpus.attached_node(r, models.Balance, 'raw_date')
+        if not owners or src is None:
+            return True
+        p_, m_ = r.choice(owners)
+        donors = [src]
+        k1, k2 = 'kq' + str(r.randint(0, 99)), 'kr' + str(r.randint(0, 99))
+        if r.random() < 0.5:
+            batch = [(k1, D(r.randint(1, 9))), (k2, src)]
+            desc = f'{p_}.meta.update([({k1!r}, <number>), ({k2!r}, <attached {type(src).__name__}>)])'
+            call = lambda: m_.meta.update(batch)
+        else:
+            item = _corpus.attached_node(r, models.Close, 'raw_meta') if False else None
+            free = models.MetaItem.from_value(k1, 'v', indent='    ')
+            other = next((x for d_ in _corpus.docs for _, x in walker.walk(d_[1]) if isinstance(x, models.MetaItem)), None)
+            if other is None:
+                return True
+            donors = [other]
+            batch = [(k1, free), (other.key, other)]
+            desc = f'{p_}.raw_meta.update([({k1!r}, <free item>), ({other.key!r}, <item attached elsewhere>)])'
+            call = lambda: m_.raw_meta.update(batch)
     elif kind == 'consumed-node':
         # a free expression whose tokens were taken over by `a += b` (its store is empty now) is not free any more
         es = [(p, m) for p, m in nodes if isinstance(m, models.NumberExpr)]
@@ -308,6 +331,10 @@ def special_step(col, r, f, text, log):
     if kind == 'store-foreign-token':
         col.ev()
         col.violation('store-foreign-token:accepted', f'{desc} was accepted', wit)
+        return False
+    if kind == 'meta-update-attached':
+        col.ev()
+        col.violation('meta-update-attached:accepted', f'{desc} was accepted although one node lives in another place', wit)
         return False
     if kind == 'consumed-node':
         col.ev()
